@@ -905,8 +905,15 @@ def call_extension_obligations(repo, chk, rule):
                     continue
                 n_ext += 1
                 v = k.value
-                ext = isinstance(v, ast.BinOp) and isinstance(v.op, ast.Add) and norm(v.left) == f"{recv}.{k.arg}"
-                added = v.right if ext else None
+                from ..astq import concat_parts
+                parts_ = concat_parts(v)
+                ext = len(parts_) >= 2 and parts_[0][0] == "seq" and norm(parts_[0][1]) == f"{recv}.{k.arg}"
+                rest_ = parts_[1:] if ext else []
+                added = None
+                if ext:
+                    added = rest_[0][1] if len(rest_) == 1 and rest_[0][0] == "seq" else ast.Tuple(elts=[x for kd, x in rest_], ctx=ast.Load()) if all(kd == "item" for kd, x in rest_) else None
+                    if added is None:
+                        ext = False
                 want_kind = "Element" if k.arg == "captures" else "Call"
                 kinds_ok, what = None, "?"
                 if added is not None:
